@@ -100,6 +100,8 @@ def predicates(src, rect, want):
     if inside is None:
         P.add('touches_statement_boundary')
     else:
+        if isinstance(inside[1], ast.ExceptHandler):
+            P.add('in_except_header')
         ts = inside[2]
         owned = {(t.start, t.end) for t in ts}
         sig = [t for t in toks if t.type not in (tokenize.NL, tokenize.NEWLINE, tokenize.INDENT, tokenize.DEDENT, tokenize.ENDMARKER)]
@@ -112,6 +114,21 @@ def predicates(src, rect, want):
         P.add('changes_statement_skeleton')
     if wt is None:
         P.add('result_invalid')
+    if end_ln != ln:
+        P.add('rect_multiline')
+    return P
+
+
+def text_predicates(text):
+    P = set()
+    if '\n' in text:
+        P.add('text_multiline')
+    if '#' in text:
+        P.add('text_has_comment')
+    if '"' in text or "'" in text:
+        P.add('text_has_quote')
+    if '\\' in text:
+        P.add('text_has_backslash')
     return P
 
 
@@ -259,9 +276,13 @@ class C10(Plugin):
             raise Violation('root_identity', 'root object changed')
         P = set()
         if k == 'put_src' and 'want' in ctx:
-            P = predicates(ctx['src'], op['rect'], ctx['want'])
+            P = predicates(ctx['src'], op['rect'], ctx['want']) | text_predicates(op['text'])
+        if op.get('rawput'):
+            P = {'raw_node_put'}
+            if (op.get('opts') or {}).get('raw') == 'auto':
+                P.add('raw_auto')
         self.last_P = P
-        indomain = k == 'put_src' and not (P & {'touches_statement_boundary', 'changes_statement_skeleton', 'whole_source', 'pre_unparsable'})
+        indomain = k == 'put_src' and not (P - {'result_invalid'})
         if k == 'put_src':
             run.stats['domain_safe' if indomain else 'domain_boundary'] += 1
         if out[0] == 'exc':
@@ -273,10 +294,15 @@ class C10(Plugin):
                 raise Violation('tree_changed_by_failed_raw_edit', O.exc_repr(e))
             if modifying_registry():
                 raise Violation('lock_survives_failed_raw_edit', O.exc_repr(e))
+            if isinstance(e, NotImplementedError):
+                run.stats['refused_not_implemented'] += 1
+                return
             if k == 'put_src' and 'want' in ctx and parse_full(ctx['want']) is not None:
                 run.stats['refused_valid'] += 1
                 raise Violation('valid_raw_edit_refused', f'{O.exc_repr(e)} | P={sorted(P)} rect={op["rect"]} text={op["text"]!r} want={ctx["want"][:400]!r}')
             if k == 'reparse':
+                if isinstance(e, ValueError) and 'without a location' in str(e):
+                    return  # documented precondition
                 raise Violation('reparse_of_valid_tree_raises', O.exc_repr(e))
             return
         run.stats['raw_accepted'] += 1
